@@ -82,7 +82,11 @@ class Thread(threading.Thread):
 
             tb = ''.join(traceback.format_exception(type(e), e, e.__traceback__))
             tb = f'[{threading.current_thread().name}] ' + tb
-            e.__cause__ = type(e)(tb)
+            try:
+                e.__cause__ = type(e)(tb)
+            except Exception:
+                # `type(e)` can not be created with a single str argument.
+                e.__cause__ = RuntimeError(tb)
             e.__traceback__ = None
 
             self._future_.set_exception(e)
